@@ -197,7 +197,7 @@ func (e *ev) runTpl(t *Tpl) {
 	for _, n := range t.Body {
 		switch n.K {
 		case "use":
-			e.use(n)
+			e.use(n, true)
 		case "macro", "import", "from", "set", "setcap":
 			e.node(n)
 		case "if", "for", "do":
@@ -216,7 +216,7 @@ func (e *ev) runTpl(t *Tpl) {
 
 // use imports the blocks of another template just below the importing
 // template's own blocks (and above its ancestors').
-func (e *ev) use(n *N) {
+func (e *ev) use(n *N, extending bool) {
 	e.sh.feature("use")
 	uname := ToStr(e.expr(n.X))
 	ut := e.sh.p.Tpl(uname)
@@ -244,6 +244,13 @@ func (e *ev) use(n *N) {
 		blocks[pr[1]] = b
 	}
 	l := len(e.chain)
+	if !extending {
+		// a template that extends nothing ranks what it uses below its own
+		// blocks: at the very end of the chain
+		e.sh.feature("use-without-extends")
+		e.chain = append(e.chain[:l:l], blocks)
+		return
+	}
 	if l < 2 {
 		leave("use in a template that does not extend")
 	}
@@ -446,7 +453,7 @@ func (e *ev) node(n *N) {
 	case "extends":
 		// handled by runTpl; a second extends is a parse error the generator never produces
 	case "use":
-		e.use(n)
+		e.use(n, false)
 	case "macro":
 		e.localMacros[n.S] = &macroDef{n: n, origin: e.name}
 	case "import":
